@@ -83,8 +83,8 @@ func upperGuard(at *ssa.BasicBlock, x ssa.Value, idx ssa.Value, strict bool) (bo
 		if !ok {
 			continue
 		}
-		onTrue := id.Succs[0] == d || id.Succs[0].Dominates(d)
-		onFalse := id.Succs[1] == d || id.Succs[1].Dominates(d)
+		onTrue := edgeOnly(id, 0, d)
+		onFalse := edgeOnly(id, 1, d)
 		if onTrue == onFalse {
 			continue
 		}
